@@ -9,7 +9,7 @@ func init() {
 			"delegating records the lock↔intermediary connection and a bonded synthetic lock before staking, undelegating removes both before unstaking; every flow validates lock ownership (and single-coin locks) first; a lock can be force-unlocked through superfluid only when its synthetic lock is already unlocking; the refresh adjusts stake by the difference in the direction of the comparison.",
 		NotCovered:  []string{"stake = risk-adjusted value to within one unit per lock", "supply neutrality as a number", "drift over epochs"},
 		Assumptions: []string{"staking keeper Delegate / InstantUndelegate semantics", "cache-context helper (C17)"},
-		MinObl:      85,
+		MinObl:      92,
 		Run:         runC11,
 	})
 }
@@ -35,6 +35,13 @@ func runC11(c *rules.Ctx) {
 	c.HasCall(UB, "superfluidtypes.BankKeeper.AddSupplyOffset", []string{"_", "cacheCtx", "superfluidtypes.StakingKeeper.BondDenom(^k.sk,cacheCtx)#0", "sdk.Coins.AmountOf({UND}, superfluidtypes.StakingKeeper.BondDenom(^k.sk,cacheCtx)#0)"}, true, "the supply offset is raised by the burned bond-denom amount (supply neutral)", "")
 	c.Order(UB, "superfluidtypes.BankKeeper.SendCoinsFromAccountToModule", "superfluidtypes.BankKeeper.BurnCoins", "burn after the coins are back in the module")
 	c.HasCall(K+"forceUndelegateAndBurnOsmoTokens", "superfluidtypes.StakingKeeper.ValidateUnbondAmount", []string{"_", "ctx", "superfluidtypes.SuperfluidIntermediaryAccount.GetAccAddress(intermediaryAcc)", "sdk.ValAddressFromBech32(intermediaryAcc.ValAddr)#0", "osmoAmount"}, true, "the shares to unbond are computed for the given amount at the account's validator", "")
+	// ---- the stake behind a lock is the risk-adjusted value: amount − round(amount × MinimumRiskFactor)
+	c.Let("RISK", "superfluidkeeper.Keeper.GetParams(k,ctx).MinimumRiskFactor")
+	c.Returns(K+"GetRiskAdjustedOsmoValue", 0, "sdkmath.Int.Sub(amount, sdkmath.LegacyDec.RoundInt(sdkmath.LegacyDec.Mul(sdkmath.Int.ToLegacyDec(amount), {RISK}))) | sdkmath.Int.Sub(amount, sdkmath.LegacyDec.RoundInt(sdkmath.LegacyDec.Mul({RISK}, sdkmath.Int.ToLegacyDec(amount))))",
+		"risk-adjusted value = amount − amount × minimum risk factor (the discount itself is never what is staked)", "")
+	c.Returns(K+"UnriskAdjustOsmoValue", 0, "sdkmath.LegacyDec.Quo(amount, sdkmath.LegacyDec.Sub(sdkmath.LegacyOneDec(), {RISK}))", "the inverse divides by 1 − minimum risk factor", "")
+	lockupGenesisAccumulationRules(c)
+	c.Returns("x/superfluid/keeper.Hooks.AfterEpochEnd", 0, "superfluidkeeper.Keeper.AfterEpochEnd(h.k,ctx,epochIdentifier,epochNumber)", "the epoch hook wrapper returns the keeper's verdict unchanged", "")
 	// ---- delegate flow
 	const SD = K + "SuperfluidDelegate"
 	c.Let("LOCK", "superfluidtypes.LockupKeeper.GetLockByID(k.lk,ctx,lockID)#0")
